@@ -466,7 +466,15 @@ def build_fn(block, orig, canary=False, mutant=None):
                 continue
             if where == 'epilogue':
                 # before the closing brace of the function body (functions returning unit / ending in a statement)
-                ins.append((len(body.rstrip()) - 1, 3, txt))
+                end = len(body.rstrip()) - 1
+                k = end - 1
+                while k > 0 and (body[k].isspace() or not bm[k]):
+                    k -= 1
+                if k > 0 and body[k] not in ';}{':
+                    # the body ends in a tail expression (`expr }`): the hint goes before that expression
+                    ins.append((stmt_start(body, bm, k), 2, txt))
+                else:
+                    ins.append((end, 3, txt))
                 continue
             mm = re.match(r'loop\s+(\d+)\s+(start|end|after)$', where)
             if mm:
